@@ -20,6 +20,8 @@ import vlib
 SPECDIR = os.path.join(vlib.SPEC, "heap")
 MC = os.path.join(SPECDIR, "MCGcImpl.tla")
 SIM = os.path.join(SPECDIR, "MCGcSim.tla")
+SHAPES = os.path.join(SPECDIR, "MCGcShapes.tla")
+IMPLSHAPES = os.path.join(SPECDIR, "MCGcImplShapes.tla")
 RES_CLASS = "finalizer hands out a handle on a node of the unreachable set (resurrection)"
 
 
@@ -510,11 +512,65 @@ class Runner:
             self.ck.failure(sig, {"history": sexp, "failure": sf, "observed": sr, "original": short(exp), "short": sig})
 
 
-def tlc_histories(cfg, workers, tag, timeout, **kw):
-    hists = []
-    r = vlib.run_tlc(MC, cfg, workers=workers, timeout=timeout, on_tagged=lambda t, o: hists.append(o) if t == tag else None, **kw)
+def shape_history(rec):
+    """Renders a shape (MCGcShapes SHAPE record) into a set-up script + collect + probes + collect, computes the
+    expectation with Ref and checks that Ref's outcome of the first collect is exactly TLC's."""
+    s = rec["shape"]
+    K = s["K"]
+    ops = [{"op": "alloc", "n": n, "k": 0} for n in range(1, K + 1)]
+    ops += [{"op": "link", "a": a, "b": b} for a, b in sorted(map(tuple, s["edges"]))]
+    if s["mh"] != 99:
+        ops.append({"op": "wm", "m": 1, "h": s["mh"]})
+    for i, (kind, k, v, h) in enumerate(s["rows"], 1):
+        ops.append({"op": "weak", "w": i, "a": k} if kind == "weak" else {"op": "eph", "e": i, "k": k, "v": v, "h": h})
+    for k, v in s["ents"]:
+        ops.append({"op": "wmins", "m": 1, "k": k, "v": v})
+    ops += [{"op": "droph", "a": n} for n in range(1, K + 1) if n not in s["roots"]]
+    ops.append({"op": "collect"})
+    ref = Ref()
+    exp = [ref.apply(o) for o in ops]
+    out = dict(rec["out"])
+    mine = exp[-1]
+    theirs = {k: (sorted(v) if isinstance(v, list) else v) for k, v in out.items()}
+    if mine != theirs or [r["ok"] for r in ref.P] != list(rec["ok"]):
+        raise vlib.ToolError(f"oracle disagreement on shape {json.dumps(s)}: TLC {theirs} {rec['ok']} Ref {mine} {[r['ok'] for r in ref.P]}")
+    probes = []
+    for i, r in enumerate(ref.P, 1):
+        if r["kind"] == "eph" and r["held"] and ref.holder_ok(r["h"]):
+            probes.append({"op": "ephval", "e": i})
+    if ref.M and ref.map_ok(1):
+        probes += [{"op": "wmget", "m": 1, "k": k} for k in sorted(ref.nodes) if ref.held(k)]
+    for i, r in enumerate(ref.P, 1):
+        if r["kind"] == "weak" and r["held"]:
+            probes.append({"op": "upgrade", "w": i})
+    probes.append({"op": "collect"})
+    for o in probes:
+        exp.append(ref.apply(o))
+    return exp
+
+
+def run_tlc_job(module, cfg, workers, tags, timeout=2400, **kw):
+    # development aid only (never set by a registered command): reuse TLC's output for an unchanged spec + config
+    cache = os.environ.get("VERIF_C09_CACHE")
+    if cache:
+        import hashlib
+        hsh = hashlib.sha1()
+        for f in sorted(os.listdir(SPECDIR)):
+            if f.endswith(".tla") or f == cfg:
+                hsh.update(open(os.path.join(SPECDIR, f), "rb").read())
+        hsh.update(json.dumps(kw, sort_keys=True).encode())
+        cp = os.path.join(cache, f"{cfg}-{hsh.hexdigest()[:12]}.json")
+        if os.path.exists(cp):
+            d = json.load(open(cp))
+            return d["got"], d["r"]
+    got = []
+    r = vlib.run_tlc(module, cfg, workers=workers, timeout=timeout,
+                     on_tagged=lambda t, o: got.append(o) if t in tags else None, **kw)
     vlib.tlc_must_pass(r, cfg)
-    return hists, r
+    if cache:
+        os.makedirs(cache, exist_ok=True)
+        json.dump({"got": got, "r": {k: v for k, v in r.items() if k != "tagged"}}, open(cp, "w"))
+    return got, r
 
 
 SELFTEST = [{"op": "alloc", "n": 1, "k": 1}, {"op": "alloc", "n": 2, "k": 0}, {"op": "link", "a": 1, "b": 2},
@@ -526,15 +582,27 @@ def selftest(run):
     with the container; boa_gc cannot see the edge. The harness must notice, otherwise the replay is blind."""
     exp, ref = expect(SELFTEST)
     r = vlib.run_lines(run.bin, [{"id": 0, "ops": SELFTEST}]).get(0)
-    f = Judge(vlib.Check.__new__(vlib.Check)).judge(exp, r, ref) if False else None
-    j = Judge(run.ck)
-    f = j.judge(exp, r, ref)
+    silent = vlib.Check.__new__(vlib.Check)
+    silent.drift = 0
+    f = Judge(silent).judge(exp, r, ref)
     if f is None:
         raise vlib.ToolError("self-test: a missing Trace edge (unsafe_ignore_trace container) was NOT noticed by the harness")
     run.ck.cov["selftest_missing_trace_edge"] = f"noticed: {f['kind']} at op {f['at']}"
 
 
+def dedup_prefix(hists):
+    """-simulate prints every candidate last step of a trace: keep one history per (n-1)-operation prefix."""
+    seen, out = set(), []
+    for h in hists:
+        key = vlib.sig_hash([bare(e) for e in h[:-1]])
+        if key not in seen:
+            seen.add(key)
+            out.append(h)
+    return out
+
+
 def run(tier, replay=None):
+    from concurrent.futures import ThreadPoolExecutor
     ck = vlib.Check("C09", tier, "model_checking", replay)
     bindir = vlib.build_harness(["hgc"])
     runner = Runner(ck, bindir)
@@ -551,40 +619,94 @@ def run(tier, replay=None):
 
     selftest(runner)
     quick = tier == "quick"
+    sfx = "quick" if quick else "thorough"
+    pool = ThreadPoolExecutor(max_workers=2)
+    # 1. model gate (invariants + refinement GcImpl => GcSpec), in the background while replays are generated
+    gate_cfgs = [(MC, "MCGcImpl_gate_quick.cfg")] if quick else \
+                [(MC, "MCGcImpl_gate_thorough.cfg"), (MC, "MCGcImpl_gate_res.cfg"), (IMPLSHAPES, "MCGcImplShapes_gate.cfg")]
+
+    def gates():
+        out = []
+        for mod, cfg in gate_cfgs:
+            r = vlib.run_tlc(mod, cfg, workers=4, timeout=2400, coverage=not quick)
+            vlib.tlc_must_pass(r, "GcImpl/" + cfg)
+            vlib.log(f"[gate] {cfg}: {r['distinct']} distinct states, {r['states']} transitions, {r['wall']:.0f}s")
+            out.append(r)
+        return out
+    gate_f = pool.submit(gates)
+    fails = []
+    counts = {}
+    # 2. history-exhaustive replays, 3. transition-exhaustive EDGE replays, 4. shape families
+    jobs = [("hist", MC, f"MCGcImpl_hist_{sfx}.cfg", ("REPLAY",)),
+            ("edge", MC, f"MCGcImpl_edge_{sfx}.cfg", ("EDGE",)),
+            ("shapes", SHAPES, f"MCGcShapes_{sfx}.cfg", ("SHAPE",))]
+    futs = []
+    nxt = pool.submit(run_tlc_job, jobs[0][1], jobs[0][2], 4, jobs[0][3])
+    model_states = model_trans = 0
+    for i, (label, mod, cfg, tags) in enumerate(jobs):
+        got, r = nxt.result()
+        if i + 1 < len(jobs):
+            nxt = pool.submit(run_tlc_job, jobs[i + 1][1], jobs[i + 1][2], 4, jobs[i + 1][3])
+        model_states += r["distinct"]
+        model_trans += r["states"]
+        vlib.log(f"[{label}] {len(got)} records from {r['distinct']} states in {r['wall']:.0f}s")
+        hists = [shape_history(x) for x in got] if label == "shapes" else got
+        counts[label] = len(hists)
+        fails += runner.run_batch(hists, label)
+        if hists:
+            ck.sample(short(hists[len(hists) // 2]))
+    # 5. seeded long histories (thorough)
+    if not quick:
+        sd = vlib.seed()
+        for cfg, num, depth in (("MCGcSim_noarm_a.cfg", 1500, 800), ("MCGcSim_noarm_b.cfg", 60, 6000),
+                                ("MCGcSim_noarm_c.cfg", 2, 40000), ("MCGcSim_a.cfg", 1000, 800), ("MCGcSim_b.cfg", 40, 6000),
+                                ("MCGcSim_c.cfg", 2, 40000)):
+            got, r = run_tlc_job(SIM, cfg, 1, ("REPLAY",), simulate=num, depth=depth, tseed=sd)
+            hists = dedup_prefix(got)
+            vlib.log(f"[sim] {cfg}: {len(hists)} histories (max {max(len(h) for h in hists)} ops) in {r['wall']:.0f}s")
+            counts["sim"] = counts.get("sim", 0) + len(hists)
+            counts["sim_longest"] = max(counts.get("sim_longest", 0), max(len(h) for h in hists))
+            fails += runner.run_batch(hists, "sim")
+    runner.report(fails)
     states = trans = 0
-    # 1. model gate: invariants + refinement GcImpl => GcSpec
-    gates = ["MCGcImpl_gate_quick.cfg"] if quick else ["MCGcImpl_gate_thorough.cfg", "MCGcImpl_gate_res.cfg"]
-    for cfg in gates:
-        r = vlib.run_tlc(MC, cfg, workers=8, timeout=1500, coverage=not quick)
-        vlib.tlc_must_pass(r, "GcImpl/" + cfg)
+    tlc_cov = {}
+    for r in gate_f.result():
         states += r["distinct"]
         trans += r["states"]
         ck.cov.setdefault("checker_cmd", r["cmd"])
-        vlib.log(f"[gate] {cfg}: {r['distinct']} distinct states, {r['states']} transitions, {r['wall']:.0f}s")
-    # 2. history-exhaustive replays
-    hists, r = tlc_histories("MCGcImpl_hist_quick.cfg" if quick else "MCGcImpl_hist_thorough.cfg", 8, "REPLAY", 1500)
-    vlib.log(f"[hist] {len(hists)} histories from {r['distinct']} states in {r['wall']:.0f}s")
-    fails = runner.run_batch(hists, "hist")
-    n_hist = len(hists)
-    for h in hists[1000:1002]:
-        ck.sample(short(h) + "  =>  " + json.dumps([e for e in h if e["op"] == "collect"][:1]))
-    # 3. transition-exhaustive EDGE replays over the reachable graph of GcImpl
-    edges, r = tlc_histories("MCGcImpl_edge_quick.cfg" if quick else "MCGcImpl_edge_thorough.cfg", 8, "EDGE", 1500)
-    vlib.log(f"[edge] {len(edges)} transitions of {r['distinct']} states in {r['wall']:.0f}s")
-    fails += runner.run_batch(edges, "edge")
-    for h in edges[-2:]:
-        ck.sample(short(h))
-    runner.report(fails)
-    ck.cov.update(states=states, transitions=trans, traces_validated_against_impl=runner.replayed,
-                  histories_exhaustive=n_hist, transitions_replayed=len(edges), evaluations=runner.judge.evals,
+        if not quick:
+            never = check_coverage(r)
+            tlc_cov[r["cmd"]] = "all collector and mutator actions taken" if not never else never
+    ck.cov.update(states=states, transitions=trans, emission_states=model_states,
+                  traces_validated_against_impl=runner.replayed, evaluations=runner.judge.evals,
                   distinct_nontrivial=runner.nontrivial, resurrection_class_failures=runner.res_class_hits,
+                  replays=counts, exhaustive=True,
                   rule="non-trivial = a history with a collection that freed, or retained without a mutator handle, a node "
                        "that lies on a cycle of heap edges or is the value of a live ephemeron / weak-map entry")
-    floor = 2000 if quick else 20000
+    if tlc_cov:
+        ck.cov["tlc_coverage"] = tlc_cov
+    floor = 5000 if quick else 50000
     if runner.nontrivial < floor:
         raise vlib.ToolError(f"vacuity guard: only {runner.nontrivial} non-trivial histories (< {floor})")
     ck.assumptions += ["histories need a mutator handle on every node they name (nodes only reachable through the heap are "
                        "re-acquired with load / upgrade)",
                        "weak rows on keys that a finalizer resurrected are cleared in the model (as the code does); the "
-                       "property leaves it open, a deviation there is reported as drift"]
+                       "property leaves it open, a deviation there is reported as drift",
+                       "ephemeron-box and WeakMapBox counts are implementation-shaped (GcImpl): a mismatch is MODEL-DRIFT"]
     return ck.finish()
+
+
+ACTIONS = ["Alloc", "Clone", "DropHandle", "Link", "Unlink", "Load", "MkWeak", "Upgrade", "DropWeak", "MkEph", "EphValue",
+           "DropEph", "MkWm", "WmInsert", "WmRemove", "WmGet", "DropWm", "StartCollect", "TraceNonRoots", "MarkStrong",
+           "MarkEphInit", "MarkEphRound", "Unreachables", "Finalize", "FinalizeWeak", "Release", "Sweep", "ClearWeakMaps"]
+
+
+def check_coverage(r):
+    """-coverage 1 prints `<Action line ..>: distinct:total`; an action of GcImpl that was never taken is a tool error."""
+    import re
+    taken = {}
+    for line in r["raw_tail"].splitlines():
+        m = re.match(r"^<(\w+) line \d+, col \d+ to line \d+, col \d+ of module GcImpl>: (\d+):(\d+)", line.strip())
+        if m:
+            taken[m.group(1)] = taken.get(m.group(1), 0) + int(m.group(3))
+    return taken
